@@ -812,6 +812,7 @@ func wireMain(cfg *config, which string) {
 		`{"jsonrpc":"2.0","id":[1],"method":"m"}`, `{"jsonrpc":"2.0","id":"x","method":"m","params":7}`, `{"jsonrpc":"2.0","id":0,"method":"m","params":"s"}`,
 		`5`, `"x"`, `[1]`, `{"jsonrpc":"2.0","id":1e3,"method":5}`, `{"jsonrpc":"2.0","id":"<&>","method":"m","<b>&":1}`, "{\"jsonrpc\":\"2.0\",\"id\":\"\\u0031\",\"method\":\"m\",\"\u2028\":1}",
 		`{"jsonrpc":"2.0","id":7,"method":"m","result":1}`, `{"jsonrpc":"2.0","id":7,"method":"m","error":{"code":"x"}}`, `{"jsonrpc":"2.0","id":null,"method":"m","params":1}`,
+		`{"jsonrpc":"1.0","id":"100%","method":"m"}`, `{"jsonrpc":"2.0","id":"job-%d %s","method":"m","params":7}`, `{"jsonrpc":"2.0","id":"x%%y%!","method":5}`,
 		`{"jsonrpc":"2.0","method":"m","params":1}`, `{"jsonrpc":"2.0","id": "sp ace" ,"method":"m","x\ty":1}`, "{\"jsonrpc\":\"2.0\",\"id\":1,\"method\":\"m\",\"\xff\":1}",
 	}
 	for _, s := range single {
